@@ -39,6 +39,11 @@ func IsKnown(key string) bool {
 	return false
 }
 
+// Starved, when set by a test package, reports whether the current case was disturbed by CPU starvation
+// (a shortened wall-clock budget of the code under test expired before the code could make its first
+// attempt). Such a case proves nothing either way.
+var Starved func() bool
+
 // Fataler is the part of testing.T / rapid.T we need.
 type Fataler interface {
 	Fatalf(format string, args ...interface{})
@@ -52,6 +57,15 @@ type Fataler interface {
 func (c *Collector) Violation(t Fataler, key string, format string, args ...interface{}) bool {
 	if IsKnown(key) {
 		c.KnownHit(key)
+		return true
+	}
+	if Starved != nil && Starved() {
+		// the machine was too busy for the (shortened) time budgets of the code under test during this
+		// case: whatever was observed is a time budget hit, not behaviour - the case is inconclusive
+		c.Class("inconclusive:starved-case")
+		if sk, ok := t.(interface{ Skip(args ...any) }); ok {
+			sk.Skip("inconclusive: a wall-clock budget of the code under test ran out before its first attempt (busy machine)")
+		}
 		return true
 	}
 	t.Fatalf("VKEY[%s] %s", key, fmt.Sprintf(format, args...))
